@@ -22,7 +22,8 @@
 From Coq Require Import ZArith NArith List Bool.
 Import ListNotations.
 Require Import SR.Base.Res SR.Spec.Anchor SR.Spec.Layout SR.Model.Layout SR.Spec.SchemaTruth SR.Model.JsonType
-  SR.Model.SchemaDoc SR.Proofs.JsonTypeP SR.Proofs.SchemaDocP.
+  SR.Model.SchemaDoc SR.Spec.DigitNames SR.Proofs.JsonTypeP SR.Proofs.SchemaDocP
+  SR.Proofs.SchemaDocNamesP.
 Open Scope N_scope.
 
 (* ---- VALID, the standard generator (the one schema_iter uses): for every well-formed record description with
@@ -411,3 +412,293 @@ Definition bad_inner (i : id) : list N := if (i =? 10)%N then [84; 32; 49] else 
 Example C08c_example_inner_name_refuted :
   valid_schema 7 (doc bad_inner ex_title ex_cobol ex_kw (build ex_tree)) = false.
 Proof. vm_compute. reflexivity. Qed.
+
+(* ==================================================================================================================
+   KNOWN FINDING K-digit-first-name.  A COBOL data name needs one letter SOMEWHERE, not first: 05 9A PIC X. and
+   05 1ST-NAME PIC X(10). are legal COBOL, the generator copies the name into $anchor unchanged, and the meta-schema's
+   pattern for $anchor refuses a text that begins with a digit: Draft202012Validator.check_schema raises SchemaError on
+   the emitted document.  [cobol_name], [digit_first]: Spec/DigitNames.v.
+
+   The exact boundary: a valid document NEEDS every name of the description to be a legal anchor - for every
+   description, all keywords and any fuel (this generalises C08c_name_needed from the record's own name to every
+   name) ... *)
+Theorem C08c_valid_needs_legal_names :
+  forall (name_of title_of cobol_of : id -> list N) (kw_of : id -> N * N * N) (t : item) (fuel : nat),
+  valid_schema fuel (doc name_of title_of cobol_of kw_of (build t)) = true ->
+  forall i, In i (ids_of t) -> legal (name_of i) = true.
+Proof. exact emitted_needs_legal. Qed.
+Print Assumptions C08c_valid_needs_legal_names.
+
+(* ... so under the other hypotheses of C08c_emitted_document_valid the emitted document is valid EXACTLY when every
+   name is a legal anchor *)
+Theorem C08c_valid_iff_names_legal :
+  forall (name_of title_of cobol_of : id -> list N) (kw_of : id -> N * N * N) (e : env) (t : item) (fuel : nat),
+  wf8 e t = true -> NoDup (ids_of t) ->
+  (forall i, In i (elem_ids t) -> exists u txt, json_type u txt = Ok (kw_of i)) ->
+  (2 * idepth t + 1 <= fuel)%nat ->
+  (valid_schema fuel (doc name_of title_of cobol_of kw_of (build t)) = true
+   <-> forall i, In i (ids_of t) -> legal (name_of i) = true).
+Proof. exact emitted_valid_iff. Qed.
+Print Assumptions C08c_valid_iff_names_legal.
+
+(* the same for the rendering of ANY structure tree: valid exactly when every $anchor it bears is legal *)
+Theorem C08c_document_valid_iff_anchors_legal :
+  forall (name_of title_of cobol_of : id -> list N) (kw_of : id -> N * N * N) (s : js) (inner : bool) (fuel : nat),
+  shape_ok s = true ->
+  (forall k, In k (atom_keys s) -> type_ok (kw_of (key_id k)) = true) ->
+  (jdepth s <= fuel)%nat ->
+  (valid_schema fuel (doc_of name_of title_of cobol_of kw_of inner s) = true
+   <-> forall k, In k (anchors_of s) -> legal (key_text name_of k) = true).
+Proof. exact valid_iff_anchors. Qed.
+Print Assumptions C08c_document_valid_iff_anchors_legal.
+
+(* among COBOL data names the illegal anchors are exactly the names that begin with a digit ... *)
+Theorem C08c_cobol_name_legal_iff : forall s : list N, cobol_name s = true -> legal s = negb (digit_first s).
+Proof. exact cobol_name_legal. Qed.
+Print Assumptions C08c_cobol_name_legal_iff.
+
+(* ... so for copybooks (every name a COBOL data name) the emitted document is valid EXACTLY when no data name begins
+   with a digit: the trigger set of K-digit-first-name is exact *)
+Theorem C08c_valid_iff_no_digit_first :
+  forall (name_of title_of cobol_of : id -> list N) (kw_of : id -> N * N * N) (e : env) (t : item) (fuel : nat),
+  wf8 e t = true -> NoDup (ids_of t) ->
+  (forall i, In i (ids_of t) -> cobol_name (name_of i) = true) ->
+  (forall i, In i (elem_ids t) -> exists u txt, json_type u txt = Ok (kw_of i)) ->
+  (2 * idepth t + 1 <= fuel)%nat ->
+  (valid_schema fuel (doc name_of title_of cobol_of kw_of (build t)) = true
+   <-> forall i, In i (ids_of t) -> digit_first (name_of i) = false).
+Proof. exact emitted_valid_iff_cobol. Qed.
+Print Assumptions C08c_valid_iff_no_digit_first.
+
+(* The full validity statement - every well-formed record description with COBOL data names yields a valid schema,
+   i.e. C08c_emitted_document_valid with "names are COBOL data names" in place of "names are legal anchors" - kept
+   visible, and FALSE of the code as it is. *)
+Definition C08c_emitted_document_valid_full : Prop :=
+  forall (name_of title_of cobol_of : id -> list N) (kw_of : id -> N * N * N) (e : env) (t : item) (fuel : nat),
+  wf8 e t = true -> NoDup (ids_of t) ->
+  (forall i, In i (ids_of t) -> cobol_name (name_of i) = true) ->
+  (forall i, In i (elem_ids t) -> exists u txt, json_type u txt = Ok (kw_of i)) ->
+  (2 * idepth t + 1 <= fuel)%nat ->
+  valid_schema fuel (doc name_of title_of cobol_of kw_of (build t)) = true.
+
+(* 01 R.  05 9A PIC X.   [dg_document] is the document schema_iter of /repo emits for it, transcribed by a script;
+   check_schema raises SchemaError: '9A' does not match the pattern of $anchor *)
+Definition dg_tree : item := Group 1 Once None (ICons (Elem 2 1 Once None) INil).
+Definition dg_name (i : id) : list N := if (i =? 1)%N then [82] else [57; 65].
+Definition dg_cobol (i : id) : list N :=
+  if (i =? 1)%N then [48; 49; 32; 82] else [48; 53; 32; 57; 65; 32; 80; 73; 67; 32; 88].
+Definition dg_kw (i : id) : N * N * N := match json_type 11 [88] with Ok k => k | Err _ => (0, 0, 0)%N end.
+Definition dg_document : jval :=
+  VMap [([116; 105; 116; 108; 101], VText [82]);
+    ([36; 97; 110; 99; 104; 111; 114], VText [82]);
+    ([99; 111; 98; 111; 108], VText [48; 49; 32; 82]);
+    ([116; 121; 112; 101], VText [111; 98; 106; 101; 99; 116]);
+    ([112; 114; 111; 112; 101; 114; 116; 105; 101; 115], VMap [([57; 65], VMap [([116; 105; 116; 108; 101], VText [57; 65]);
+        ([36; 97; 110; 99; 104; 111; 114], VText [57; 65]);
+        ([99; 111; 98; 111; 108], VText [48; 53; 32; 57; 65; 32; 80; 73; 67; 32; 88]);
+        ([116; 121; 112; 101], VText [115; 116; 114; 105; 110; 103]);
+        ([99; 111; 110; 116; 101; 110; 116; 69; 110; 99; 111; 100; 105; 110; 103], VText [99; 112; 48; 51; 55]);
+        ([109; 97; 120; 76; 101; 110; 103; 116; 104], VNum 1);
+        ([109; 105; 110; 76; 101; 110; 103; 116; 104], VNum 1)])])].
+
+Theorem C08c_digit_first_refuted :
+  cobol_name [57; 65] = true /\ digit_first [57; 65] = true /\ legal [57; 65] = false
+  /\ doc dg_name dg_name dg_cobol dg_kw (build dg_tree) = dg_document
+  /\ (forall fuel, valid_schema fuel dg_document = false)
+  /\ valid_schema 3 (fix_anchors 3 dg_document) = true
+  /\ ~ C08c_emitted_document_valid_full.
+Proof.
+  split; [vm_compute; reflexivity|]. split; [vm_compute; reflexivity|]. split; [vm_compute; reflexivity|].
+  assert (R : doc dg_name dg_name dg_cobol dg_kw (build dg_tree) = dg_document) by (vm_compute; reflexivity).
+  assert (V : forall fuel, valid_schema fuel dg_document = false).
+  { intros fuel. destruct (valid_schema fuel dg_document) eqn:E; [|reflexivity]. rewrite <- R in E.
+    pose proof (C08c_valid_needs_legal_names dg_name dg_name dg_cobol dg_kw dg_tree fuel E 2%N) as L.
+    assert (I : In 2%N (ids_of dg_tree)) by (vm_compute; auto). specialize (L I). vm_compute in L. discriminate. }
+  split; [exact R|]. split; [exact V|]. split; [vm_compute; reflexivity|].
+  intros H. specialize (H dg_name dg_name dg_cobol dg_kw (fun _ => 0%nat) dg_tree 5%nat).
+  rewrite R, V in H. assert (E : false = true); [|discriminate]. apply H.
+  - vm_compute; reflexivity.
+  - vm_compute. repeat constructor; cbn; intuition discriminate.
+  - intros i Hi. vm_compute in Hi. destruct Hi as [<-|[<-|[]]]; vm_compute; reflexivity.
+  - intros i Hi. exists 11%N, [88]%N. vm_compute. reflexivity.
+  - vm_compute. repeat constructor.
+Qed.
+Print Assumptions C08c_digit_first_refuted.
+
+(* ---- non-vacuity, and every place a digit-first name can stand: the record, an elementary item, a group, a REDEFINES
+   target and its redefiner, an OCCURS DEPENDING ON table and its counter:
+     01 1REC.  05 9CNT PIC 9.  05 9A PIC X(4).  05 2B REDEFINES 9A PIC 9999.  05 3G.  10 1ST-NAME PIC X(10).
+     05 4T PIC XX OCCURS 0 TO 5 TIMES DEPENDING ON 9CNT.  05 G5 OCCURS 2 TIMES.  10 X6 PIC S9(3) USAGE COMP-3.
+   [dgx_document] is the document schema_iter of /repo emits for it, transcribed by a script (check_schema raises).
+   The union is anchored REDEFINES-9A (legal); the references #9A, #2B, #9CNT are not constrained by the meta-schema. *)
+Definition dgx_tree : item :=
+  Group 1 Once None
+   (ICons (Elem 2 1 Once None)
+   (ICons (Elem 3 4 Once None)
+   (ICons (Elem 4 4 Once (Some 3%N))
+   (ICons (Group 5 Once None (ICons (Elem 6 10 Once None) INil))
+   (ICons (Elem 7 2 (Odo 2) None)
+   (ICons (Group 8 (Times 2) None (ICons (Elem 9 2 Once None) INil))
+    INil)))))).
+Definition dgx_name (i : id) : list N :=
+  match i with
+  | 1 => [49; 82; 69; 67]
+  | 2 => [57; 67; 78; 84]
+  | 3 => [57; 65]
+  | 4 => [50; 66]
+  | 5 => [51; 71]
+  | 6 => [49; 83; 84; 45; 78; 65; 77; 69]
+  | 7 => [52; 84]
+  | 8 => [71; 53]
+  | 9 => [88; 54]
+  | _ => []
+  end%N.
+Definition dgx_cobol (i : id) : list N :=
+  match i with
+  | 1 => [48; 49; 32; 49; 82; 69; 67]
+  | 2 => [48; 53; 32; 57; 67; 78; 84; 32; 80; 73; 67; 32; 57]
+  | 3 => [48; 53; 32; 57; 65; 32; 80; 73; 67; 32; 88; 40; 52; 41]
+  | 4 => [48; 53; 32; 50; 66; 32; 82; 69; 68; 69; 70; 73; 78; 69; 83; 32; 57; 65; 32; 80; 73; 67; 32; 57; 57; 57; 57]
+  | 5 => [48; 53; 32; 51; 71]
+  | 6 => [49; 48; 32; 49; 83; 84; 45; 78; 65; 77; 69; 32; 80; 73; 67; 32; 88; 40; 49; 48; 41]
+  | 7 => [48; 53; 32; 52; 84; 32; 80; 73; 67; 32; 88; 88; 32; 79; 67; 67; 85; 82; 83; 32; 48; 32; 84; 79; 32; 53; 32; 84; 73; 77; 69; 83; 32; 68; 69; 80; 69; 78; 68; 73; 78; 71; 32; 79; 78; 32; 57; 67; 78; 84]
+  | 8 => [48; 53; 32; 71; 53; 32; 79; 67; 67; 85; 82; 83; 32; 50; 32; 84; 73; 77; 69; 83]
+  | 9 => [49; 48; 32; 88; 54; 32; 80; 73; 67; 32; 83; 57; 40; 51; 41; 32; 85; 83; 65; 71; 69; 32; 67; 79; 77; 80; 45; 51]
+  | _ => []
+  end%N.
+Definition dgx_pic (i : id) : list N :=
+  match i with
+  | 1 => []
+  | 2 => [57]
+  | 3 => [88; 40; 52; 41]
+  | 4 => [57; 57; 57; 57]
+  | 5 => []
+  | 6 => [88; 40; 49; 48; 41]
+  | 7 => [88; 88]
+  | 8 => []
+  | 9 => [83; 57; 40; 51; 41]
+  | _ => []
+  end%N.
+Definition dgx_usage (i : id) : N :=
+  match i with
+  | 1 => 11
+  | 2 => 11
+  | 3 => 11
+  | 4 => 11
+  | 5 => 11
+  | 6 => 11
+  | 7 => 11
+  | 8 => 11
+  | 9 => 8
+  | _ => 11
+  end%N.
+Definition dgx_kw (i : id) : N * N * N :=
+  match json_type (dgx_usage i) (dgx_pic i) with Ok k => k | Err _ => (0, 0, 0)%N end.
+Definition dgx_document : jval :=
+  VMap [([116; 105; 116; 108; 101], VText [49; 82; 69; 67]);
+    ([36; 97; 110; 99; 104; 111; 114], VText [49; 82; 69; 67]);
+    ([99; 111; 98; 111; 108], VText [48; 49; 32; 49; 82; 69; 67]);
+    ([116; 121; 112; 101], VText [111; 98; 106; 101; 99; 116]);
+    ([112; 114; 111; 112; 101; 114; 116; 105; 101; 115], VMap [([57; 67; 78; 84], VMap [([116; 105; 116; 108; 101], VText [57; 67; 78; 84]);
+        ([36; 97; 110; 99; 104; 111; 114], VText [57; 67; 78; 84]);
+        ([99; 111; 98; 111; 108], VText [48; 53; 32; 57; 67; 78; 84; 32; 80; 73; 67; 32; 57]);
+        ([116; 121; 112; 101], VText [115; 116; 114; 105; 110; 103]);
+        ([99; 111; 110; 116; 101; 110; 116; 69; 110; 99; 111; 100; 105; 110; 103], VText [99; 112; 48; 51; 55]);
+        ([99; 111; 110; 118; 101; 114; 115; 105; 111; 110], VText [100; 101; 99; 105; 109; 97; 108]);
+        ([109; 97; 120; 76; 101; 110; 103; 116; 104], VNum 1);
+        ([109; 105; 110; 76; 101; 110; 103; 116; 104], VNum 1)]);
+      ([82; 69; 68; 69; 70; 73; 78; 69; 83; 45; 57; 65], VMap [([111; 110; 101; 79; 102], VArr [VMap [([116; 105; 116; 108; 101], VText [57; 65]);
+            ([36; 97; 110; 99; 104; 111; 114], VText [57; 65]);
+            ([99; 111; 98; 111; 108], VText [48; 53; 32; 57; 65; 32; 80; 73; 67; 32; 88; 40; 52; 41]);
+            ([116; 121; 112; 101], VText [115; 116; 114; 105; 110; 103]);
+            ([99; 111; 110; 116; 101; 110; 116; 69; 110; 99; 111; 100; 105; 110; 103], VText [99; 112; 48; 51; 55]);
+            ([109; 97; 120; 76; 101; 110; 103; 116; 104], VNum 4);
+            ([109; 105; 110; 76; 101; 110; 103; 116; 104], VNum 4)]
+          ; VMap [([116; 105; 116; 108; 101], VText [50; 66]);
+            ([36; 97; 110; 99; 104; 111; 114], VText [50; 66]);
+            ([99; 111; 98; 111; 108], VText [48; 53; 32; 50; 66; 32; 82; 69; 68; 69; 70; 73; 78; 69; 83; 32; 57; 65; 32; 80; 73; 67; 32; 57; 57; 57; 57]);
+            ([116; 121; 112; 101], VText [115; 116; 114; 105; 110; 103]);
+            ([99; 111; 110; 116; 101; 110; 116; 69; 110; 99; 111; 100; 105; 110; 103], VText [99; 112; 48; 51; 55]);
+            ([99; 111; 110; 118; 101; 114; 115; 105; 111; 110], VText [100; 101; 99; 105; 109; 97; 108]);
+            ([109; 97; 120; 76; 101; 110; 103; 116; 104], VNum 4);
+            ([109; 105; 110; 76; 101; 110; 103; 116; 104], VNum 4)]]);
+        ([36; 97; 110; 99; 104; 111; 114], VText [82; 69; 68; 69; 70; 73; 78; 69; 83; 45; 57; 65])]);
+      ([57; 65], VMap [([116; 105; 116; 108; 101], VText [57; 65]);
+        ([99; 111; 98; 111; 108], VText [48; 53; 32; 57; 65; 32; 80; 73; 67; 32; 88; 40; 52; 41]);
+        ([36; 114; 101; 102], VText [35; 57; 65])]);
+      ([50; 66], VMap [([116; 105; 116; 108; 101], VText [50; 66]);
+        ([99; 111; 98; 111; 108], VText [48; 53; 32; 50; 66; 32; 82; 69; 68; 69; 70; 73; 78; 69; 83; 32; 57; 65; 32; 80; 73; 67; 32; 57; 57; 57; 57]);
+        ([36; 114; 101; 102], VText [35; 50; 66])]);
+      ([51; 71], VMap [([116; 105; 116; 108; 101], VText [51; 71]);
+        ([36; 97; 110; 99; 104; 111; 114], VText [51; 71]);
+        ([99; 111; 98; 111; 108], VText [48; 53; 32; 51; 71]);
+        ([116; 121; 112; 101], VText [111; 98; 106; 101; 99; 116]);
+        ([112; 114; 111; 112; 101; 114; 116; 105; 101; 115], VMap [([49; 83; 84; 45; 78; 65; 77; 69], VMap [([116; 105; 116; 108; 101], VText [49; 83; 84; 45; 78; 65; 77; 69]);
+            ([36; 97; 110; 99; 104; 111; 114], VText [49; 83; 84; 45; 78; 65; 77; 69]);
+            ([99; 111; 98; 111; 108], VText [49; 48; 32; 49; 83; 84; 45; 78; 65; 77; 69; 32; 80; 73; 67; 32; 88; 40; 49; 48; 41]);
+            ([116; 121; 112; 101], VText [115; 116; 114; 105; 110; 103]);
+            ([99; 111; 110; 116; 101; 110; 116; 69; 110; 99; 111; 100; 105; 110; 103], VText [99; 112; 48; 51; 55]);
+            ([109; 97; 120; 76; 101; 110; 103; 116; 104], VNum 10);
+            ([109; 105; 110; 76; 101; 110; 103; 116; 104], VNum 10)])])]);
+      ([52; 84], VMap [([116; 105; 116; 108; 101], VText [52; 84]);
+        ([99; 111; 98; 111; 108], VText [48; 53; 32; 52; 84; 32; 80; 73; 67; 32; 88; 88; 32; 79; 67; 67; 85; 82; 83; 32; 48; 32; 84; 79; 32; 53; 32; 84; 73; 77; 69; 83; 32; 68; 69; 80; 69; 78; 68; 73; 78; 71; 32; 79; 78; 32; 57; 67; 78; 84]);
+        ([116; 121; 112; 101], VText [97; 114; 114; 97; 121]);
+        ([105; 116; 101; 109; 115], VMap [([116; 121; 112; 101], VText [111; 98; 106; 101; 99; 116]);
+          ([112; 114; 111; 112; 101; 114; 116; 105; 101; 115], VMap [([52; 84], VMap [([36; 97; 110; 99; 104; 111; 114], VText [52; 84]);
+              ([99; 111; 98; 111; 108], VText [48; 53; 32; 52; 84; 32; 80; 73; 67; 32; 88; 88; 32; 79; 67; 67; 85; 82; 83; 32; 48; 32; 84; 79; 32; 53; 32; 84; 73; 77; 69; 83; 32; 68; 69; 80; 69; 78; 68; 73; 78; 71; 32; 79; 78; 32; 57; 67; 78; 84]);
+              ([116; 121; 112; 101], VText [115; 116; 114; 105; 110; 103]);
+              ([99; 111; 110; 116; 101; 110; 116; 69; 110; 99; 111; 100; 105; 110; 103], VText [99; 112; 48; 51; 55])])])]);
+        ([109; 97; 120; 73; 116; 101; 109; 115; 68; 101; 112; 101; 110; 100; 115; 79; 110], VMap [([36; 114; 101; 102], VText [35; 57; 67; 78; 84])])]);
+      ([71; 53], VMap [([116; 105; 116; 108; 101], VText [71; 53]);
+        ([99; 111; 98; 111; 108], VText [48; 53; 32; 71; 53; 32; 79; 67; 67; 85; 82; 83; 32; 50; 32; 84; 73; 77; 69; 83]);
+        ([116; 121; 112; 101], VText [97; 114; 114; 97; 121]);
+        ([105; 116; 101; 109; 115], VMap [([116; 121; 112; 101], VText [111; 98; 106; 101; 99; 116]);
+          ([112; 114; 111; 112; 101; 114; 116; 105; 101; 115], VMap [([88; 54], VMap [([116; 105; 116; 108; 101], VText [88; 54]);
+              ([36; 97; 110; 99; 104; 111; 114], VText [88; 54]);
+              ([99; 111; 98; 111; 108], VText [49; 48; 32; 88; 54; 32; 80; 73; 67; 32; 83; 57; 40; 51; 41; 32; 85; 83; 65; 71; 69; 32; 67; 79; 77; 80; 45; 51]);
+              ([116; 121; 112; 101], VText [115; 116; 114; 105; 110; 103]);
+              ([99; 111; 110; 116; 101; 110; 116; 69; 110; 99; 111; 100; 105; 110; 103], VText [112; 97; 99; 107; 101; 100; 45; 100; 101; 99; 105; 109; 97; 108]);
+              ([99; 111; 110; 118; 101; 114; 115; 105; 111; 110], VText [100; 101; 99; 105; 109; 97; 108]);
+              ([109; 97; 120; 76; 101; 110; 103; 116; 104], VNum 2);
+              ([109; 105; 110; 76; 101; 110; 103; 116; 104], VNum 2)])])]);
+        ([109; 97; 120; 73; 116; 101; 109; 115], VNum 2);
+        ([36; 97; 110; 99; 104; 111; 114], VText [71; 53])])])].
+
+(* every hypothesis of the full statement holds of it (COBOL data names all of them) ... *)
+Example C08c_digit_example_hypotheses :
+  wf8 (fun _ => 0%nat) dgx_tree = true /\ NoDup (ids_of dgx_tree)
+  /\ (forall i, In i (ids_of dgx_tree) -> cobol_name (dgx_name i) = true)
+  /\ (forall i, In i (elem_ids dgx_tree) -> exists u txt, json_type u txt = Ok (dgx_kw i))
+  /\ idepth dgx_tree = 3%nat
+  /\ map (fun i => digit_first (dgx_name i)) (ids_of dgx_tree) = [true; true; true; true; true; true; true; false; false].
+Proof.
+  split; [vm_compute; reflexivity|]. split; [vm_compute; repeat constructor; cbn; intuition discriminate|].
+  split; [intros i Hi; vm_compute in Hi; repeat (destruct Hi as [<-|Hi]; [vm_compute; reflexivity|]); destruct Hi|].
+  split; [|split; vm_compute; reflexivity].
+  intros i Hi. exists (dgx_usage i), (dgx_pic i).
+  vm_compute in Hi. repeat (destruct Hi as [<-|Hi]; [vm_compute; reflexivity|]). destruct Hi.
+Qed.
+
+(* ... its rendering IS the document /repo emits; the document is invalid; with the digit-first anchors prefixed by an
+   underscore and nothing else changed it is valid: the anchors are all the meta-schema refuses *)
+Example C08c_digit_example_rendering :
+  doc dgx_name dgx_name dgx_cobol dgx_kw (build dgx_tree) = dgx_document
+  /\ valid_schema 7 dgx_document = false
+  /\ valid_schema 7 (fix_anchors 7 dgx_document) = true.
+Proof. vm_compute. repeat split; reflexivity. Qed.
+
+(* by the boundary theorem: the letter-first spelling of the same description is valid, the digit-first one is not *)
+Example C08c_digit_example_by_theorem :
+  valid_schema 7 (doc dgx_name dgx_name dgx_cobol dgx_kw (build dgx_tree)) = false
+  /\ valid_schema 7 (doc (fun i => 78%N :: dgx_name i) dgx_name dgx_cobol dgx_kw (build dgx_tree)) = true.
+Proof.
+  destruct C08c_digit_example_hypotheses as [A [B [C [D _]]]].
+  assert (F : (2 * idepth dgx_tree + 1 <= 7)%nat) by (vm_compute; repeat constructor).
+  split.
+  - destruct (valid_schema 7 (doc dgx_name dgx_name dgx_cobol dgx_kw (build dgx_tree))) eqn:E; [|reflexivity].
+    pose proof (proj1 (C08c_valid_iff_no_digit_first dgx_name dgx_name dgx_cobol dgx_kw (fun _ => 0%nat) dgx_tree 7 A B C D F) E
+                  1%N (or_introl eq_refl)) as E1.
+    vm_compute in E1. discriminate.
+  - apply (proj2 (C08c_valid_iff_names_legal (fun i => 78%N :: dgx_name i) dgx_name dgx_cobol dgx_kw (fun _ => 0%nat) dgx_tree 7 A B D F)).
+    intros i Hi. vm_compute in Hi. repeat (destruct Hi as [<-|Hi]; [vm_compute; reflexivity|]). destruct Hi.
+Qed.
